@@ -31,6 +31,14 @@ Beyond the small scope (round 2):
   * fine-grained values - integer + k*2^-36, k*2^-40, gaps of 2^-29/2^-30/2^-31 around 1e-9, exhaustively on 2x2..3x3
     and in every random / history stream, judged exactly (integers scaled by the common power-of-two denominator,
     which is Fraction arithmetic without the gcd).
+
+Elongated shapes (round 3):
+  * shape family - EVERY shape r x c with min(r, c) in 1..4 and max(r, c) in 5..40, both orientations, several calls per
+    shape, plus random shapes with a short side of 1..6 and a long side of 41..200.  Value families made for a short side
+    that has many more lines to choose from than it needs: few distinct values (ties everywhere), wide ranges, "hot" lines
+    that every line of the short side prefers, one common ranking, and planted cascades (A and B want the same line, the
+    loser's second choice is C's first choice, whose second choice is D's first choice ...); min and max.  The optimum comes
+    from oracles.assignment.minmax_dp_short (subset DP over the SHORT side: exact and cheap whatever the long side).
 """
 from __future__ import annotations
 
@@ -264,7 +272,7 @@ def run_stream(spec):
     Returns {"n": evaluations, "bulk": distinct non-trivial cases counted by construction (exhaustive streams),
              "keys": digests of non-trivial cases (list streams), "viol": [(op_index, obligation, detail)], "sample": op}
     """
-    from oracles.assignment import choice_matters, exact_scale, minmax, optimum_certified
+    from oracles.assignment import SHORT_DP_MAX, choice_matters, exact_scale, minmax, optimum_certified
     from solvor.hungarian import solve_hungarian
     from solvor.utils.helpers import assignment_cost
 
@@ -296,7 +304,7 @@ def run_stream(spec):
                 raise RuntimeError(f"generator defect: float arithmetic is not guaranteed exact on this matrix (den 2^{den.bit_length() - 1})")
             if not (K and K[0]):
                 lo, hi = 0, 0
-            elif max(len(K), len(K[0])) >= LADDER_FROM:
+            elif max(len(K), len(K[0])) >= LADDER_FROM and min(len(K), len(K[0])) > SHORT_DP_MAX:
                 lo, hi, proven = None, None, {}  # decided per call, one side, with the answer as a hint
             else:
                 lo, hi = minmax(K)
@@ -827,9 +835,127 @@ def fine_stream(rng, length, hi):
     return {"kind": "list", "ops": ops, "shared": rng.choice([False, False, True, "one"])}
 
 
+# ---------------------------------------------------------------------- elongated shapes (round 3)
+ELONG_OWN = ["ties01", "ties03", "ties03", "wide6", "pos100", "eighths", "hot", "hot", "ranked", "cascade", "cascade", "cascade",
+             "contest", "contest", "contest"]
+ELONG_OLD = ["small", "neg", "dupcols", "duprows", "rowscale", "colscale", "diagtrap", "planted", "plantedties", "sparsebig",
+             "additive", "product", "lexi36", "tiny40", "near1e-9", "widerange"]
+
+
+def elong_shapes():
+    """every shape with a short side of 1..4 and a long side of 5..40, both orientations"""
+    return [sh for k in range(1, 5) for n in range(5, 41) for sh in ((k, n), (n, k))]
+
+
+def gen_elongated(rng, r, c, fam):
+    """r x c matrix; the structured families are built for 'few rows, many columns, minimise' and then transposed (tall
+    shapes); the caller negates for maximisation."""
+    if fam in ELONG_OLD:
+        return gen_matrix(rng, r, c, fam)
+    a, b = min(r, c), max(r, c)
+    A, B = range(a), range(b)
+    if fam == "ties01":
+        m = [[rng.randint(0, 1) for _ in B] for _ in A]
+    elif fam == "ties03":
+        top = rng.choice([2, 3, 3, 5])
+        m = [[rng.randint(0, top) for _ in B] for _ in A]
+    elif fam == "wide6":
+        m = [[rng.randint(-10 ** 6, 10 ** 6) for _ in B] for _ in A]
+    elif fam == "pos100":
+        m = [[rng.randint(1, 100) for _ in B] for _ in A]
+    elif fam == "eighths":
+        m = [[rng.randint(-64, 64) / 8 for _ in B] for _ in A]
+    elif fam == "hot":
+        # every row prefers the same few columns: fewer cheap columns than rows, the rest spread out above them
+        k = rng.randint(1, a)
+        hot = set(rng.sample(range(b), min(k, b)))
+        lo_top = rng.choice([0, 1, 3, 8])
+        rest_lo = rng.choice([1, 3, 9])
+        rest_top = rest_lo + rng.choice([2, 6, 30, 300])
+        m = [[(rng.randint(0, lo_top) if j in hot else rng.randint(rest_lo, rest_top)) for j in B] for _ in A]
+    elif fam == "contest":
+        # generic values, then 2..a rows get their best value in ONE common column: one of them wins it, the others have to
+        # fall back on their second choice (which may in turn be somebody's favourite)
+        kind = rng.choice(["wide6", "pos100", "eighths", "sixteen"])
+        draw = {"wide6": lambda: rng.randint(-10 ** 6, 10 ** 6), "pos100": lambda: rng.randint(1, 100),
+                "eighths": lambda: rng.randint(-64, 64) / 8, "sixteen": lambda: rng.randint(0, 15)}[kind]
+        m = [[draw() for _ in B] for _ in A]
+        for _ in range(rng.choice([1, 1, 2])):
+            x = rng.randrange(b)
+            for i in rng.sample(range(a), rng.randint(min(2, a), a)):
+                m[i][x] = min(m[i]) - rng.choice([0, 1, 1, 2, 5]) * (1000 if kind == "wide6" else 1)
+    elif fam == "ranked":
+        # one common ranking of the columns, rows differ by a little noise: everybody's favourites coincide
+        level = list(range(b))
+        rng.shuffle(level)
+        step = rng.choice([1, 2, 5])
+        noise = rng.choice([0, 1, 2, 4])
+        rowbase = [rng.choice([0, 0, 7, -20]) for _ in A]
+        m = [[rowbase[i] + step * level[j] + rng.randint(0, noise) for j in B] for i in A]
+    elif fam == "cascade":
+        # rows q0 and q1 share the favourite p0; q0's second choice p1 is the favourite of q2, whose second choice p2 is
+        # the favourite of q3 ...; q1's second choice is dearer.  Whether the whole chain moves depends on the drawn numbers.
+        big = rng.choice([10, 20, 50])
+        m = [[big + rng.randint(0, rng.choice([0, 3, 10])) for _ in B] for _ in A]
+        p = rng.sample(range(b), min(b, a + 1))
+        q = list(A)
+        rng.shuffle(q)
+        d = lambda: rng.randint(1, rng.choice([1, 2, 4]))  # noqa: E731
+        f0 = rng.randint(0, 1)
+        m[q[0]][p[0]] = f0
+        if len(p) > 1:
+            m[q[0]][p[1]] = f0 + d()
+        if a > 1:
+            m[q[1]][p[0]] = rng.randint(0, 1)
+            x = rng.randrange(b)
+            if x != p[0]:
+                m[q[1]][x] = rng.randint(2, big)
+        for k in range(2, a):
+            if k < len(p):
+                fk = rng.randint(0, 1)
+                m[q[k]][p[k - 1]] = fk
+                m[q[k]][p[k]] = fk + d()
+        if rng.random() < 0.3:  # a few more cheap cells anywhere
+            for _ in range(rng.randint(1, a)):
+                m[rng.randrange(a)][rng.randrange(b)] = rng.randint(0, 6)
+        scale = rng.choice([1, 1, 1, 7, 0.125, 1000])
+        off = rng.choice([0, 0, -40, 3])
+        if scale != 1 or off:
+            m = [[x * scale + off for x in row] for row in m]
+    else:
+        raise ValueError(fam)
+    if r > c:
+        m = [list(col) for col in zip(*m)]
+    return m
+
+
+def elong_stream(rng, shapes, per_shape):
+    """per_shape calls for every listed shape, min / max alternating (the structured families are mirrored for max)."""
+    ops = []
+    for r, c in shapes:
+        for t in range(per_shape):
+            fam = rng.choice(ELONG_OWN) if rng.random() < 0.7 else rng.choice(ELONG_OLD)
+            m = gen_elongated(rng, r, c, fam)
+            mode = ("min", "max")[t % 2] if rng.random() < 0.9 else "default"
+            if mode == "max" and fam in ELONG_OWN and rng.random() < 0.85:
+                m = [[-x for x in row] for row in m]
+            ops.append(["solve", m, mode, rand_form(rng), fam])
+    return {"kind": "list", "ops": ops, "shared": rng.choice([False, False, False, True])}
+
+
+def rand_elong_shape(rng, lo, hi):
+    k = rng.choice([1, 2, 3, 3, 4, 4, 5, 5, 6, 6])
+    n = int(round(math.exp(rng.uniform(math.log(lo), math.log(hi)))))
+    return (k, n) if rng.random() < 0.5 else (n, k)
+
+
+def elong_random_stream(rng, calls, lo, hi):
+    return elong_stream(rng, [rand_elong_shape(rng, lo, hi) for _ in range(calls)], 1)
+
+
 PATTERNS = ["stale-padding", "tall-wide", "same-n", "many-sizes", "repeat", "flip-mode", "edit"]
 MAKERS = {"random": random_stream, "big": big_stream, "history": history_stream, "ladder": ladder_stream,
-          "ladder-history": ladder_history, "fine": fine_stream}
+          "ladder-history": ladder_history, "fine": fine_stream, "elong": elong_stream, "elong-random": elong_random_stream}
 
 
 def gen(rng, maker, *args):
@@ -937,6 +1063,26 @@ def plan(ctx: Ctx):
     ctx.scope("random streams of fine-grained matrices up to 6x6", streams=n_fine, calls_per_stream=len_fine, families=FINE,
               values="integer + k*2^-36; k*2^-40; integer + k*2^-e for e in 20..40; +-2^-31 .. 2^-28 (gaps around 1e-9)",
               oracle="permutation enumeration on the integers obtained by scaling with the common denominator 2^40 (exact)")
+    # elongated shapes: every shape (short side 1..4) x (long side 5..40), both orientations; random ones up to 6 x 200 / 200 x 6
+    shapes = elong_shapes()
+    n_el = 0
+    rng_el = random.Random(ctx.seed * 1000003 + 1010)  # its own generator: the streams planned above / below stay what they were
+    for r, c in shapes:
+        per = (24 if max(r, c) <= 20 else 12) if quick else (320 if max(r, c) <= 20 else 160)
+        for _ in range(1 if quick else 4):
+            streams.append(gen(rng_el, "elong", [[r, c]], per if quick else per // 4))
+        n_el += per
+    ctx.scope("elongated shapes, systematic", shapes=len(shapes), short_side="1..4", long_side="5..40", orientations="wide and tall",
+              calls=n_el, calls_per_shape="24 (long side <= 20) / 12" if quick else "320 (long side <= 20) / 160",
+              families=sorted(set(ELONG_OWN)) + sorted(ELONG_OLD), modes=["min", "max", "default"],
+              structure="ties (2..6 distinct values), wide range, hot lines wanted by every line of the short side, one common ranking, "
+                        "planted cascades of second choices; mirrored for max, transposed for tall shapes",
+              oracle="minmax_dp_short (subset DP over the short side) / permutation enumeration when <= 5040 matchings", exhaustive_over_shapes=True)
+    n_er, len_er = (10, 3) if quick else (150, 4)
+    for _ in range(n_er):
+        streams.append(gen(rng_el, "elong-random", len_er, 41, 200))
+    ctx.scope("elongated shapes, random", streams=n_er, calls_per_stream=len_er, short_side="1..6", long_side="41..200 (log-uniform)",
+              families=sorted(set(ELONG_OWN)) + sorted(ELONG_OLD), oracle="minmax_dp_short (subset DP over the short side)")
     for s in streams:
         if s["kind"] in ("list", "gen"):
             s["exh_spaces"] = exh_spaces
@@ -1043,8 +1189,9 @@ def run(ctx: Ctx):
     ctx.notes["ladder_optima_certified_by_independent_search"] = by_search
     ctx.rule = ("every evaluation is one call of solve_hungarian (or assignment_cost) made in sequence with the other calls of its "
                 "stream inside one fresh process, with the full contract checked against an exact oracle. A solve case is "
-                "non-trivial when the matrix has matchings of different totals (oracle min != max; from 31 lines on decided by the "
-                "exact structural test choice_matters: not a[i]+b[j] / a non-constant line), i.e. the choice matters; an "
+                "non-trivial when the matrix has matchings of different totals (oracle min != max; from 31 lines on, unless the short "
+                "side has at most 6 lines, decided by the exact structural test choice_matters: not a[i]+b[j] / a non-constant line), i.e. "
+                "the choice matters; an "
                 "assignment_cost case when at least one entry is in range. distinct = different (matrix, min|max): exhaustive "
                 "spaces are disjoint index ranges of an injective enumeration and are counted by construction; random/history "
                 "cases are de-duplicated by digest and not counted when they fall inside an exhaustively enumerated space")
@@ -1058,7 +1205,8 @@ def run(ctx: Ctx):
         "bounded: holds for the enumerated and sampled inputs only",
     ]
     ctx.trusted += [
-        "oracles/assignment.py: permutation enumeration, subset DP, and verify_certificate (weak LP duality; the only trusted "
+        "oracles/assignment.py: permutation enumeration, subset DP over the column sets, subset DP over the short side (elongated "
+        "shapes), and verify_certificate (weak LP duality; the only trusted "
         "part of minmax_certified and of optimum_certified, which decides the ladder sizes) - cross-validated "
         f"on {n_self} random matrices this run",
         "float.as_integer_ratio for the exact value of a float",
